@@ -707,6 +707,29 @@ func (p *powCache) Gen(n int) (err error) {
 	return
 }
 
+// ALIASRW control: the fold written as two statements reads p1[jx] after p2[jx] has been stored
+func foldSplit(p1, p2 []uint64, N int, F uint64) {
+	for jx, jy := 1, N-1; jx < (N >> 1); jx, jy = jx+1, jy-1 {
+		p2[jx] = p1[jx] + F*p1[jy]
+		p2[jy] = p1[jy] + F*p1[jx]
+	}
+}
+
+// MODSUB control: the digit of a prime of Q is folded modulo P[i] without being reduced by it
+func foldDigit(Q, P []uint64, src []uint64, dst [][]uint64, lvl int) {
+	for j := range src {
+		coeff := src[j]
+		pos, neg := uint64(1), uint64(0)
+		if coeff >= Q[lvl]>>1 {
+			coeff = Q[lvl] - coeff
+			pos, neg = 0, 1
+		}
+		for i := range P {
+			dst[i][j] = coeff*pos + (P[i]-coeff)*neg
+		}
+	}
+}
+
 // INDEG control: the first two components of the input, whatever its degree
 func (e fixEvaluator) SumTwo(ctIn, opOut *rlwe.Ciphertext) {
 	e.r.Add(ctIn.Value[0], ctIn.Value[1], opOut.Value[0])
